@@ -227,6 +227,8 @@ def _part_s(args):
     from sc62015.pysc62015.stepper import CPUStepper, CPURegistersSnapshot
     vb = VB()
     n = 0
+    shared = CPUStepper()            # one stepper object reused for every case of the shard (different images and snapshots)
+    done: List[str] = []
     for d in codes:
         regs, mem, fill = c06.build_case(d + bytes(4), st, CODE)
         emu, _fm = pycpu.make(regs, mem, fill)
@@ -250,6 +252,15 @@ def _part_s(args):
         if any(o != outs[0] for o in outs[1:]):
             vb.add(f"C07/python/stepper-not-repeatable/{c06._mnemonic(d + bytes(4))}", f"{d.hex()}: three steps from the same snapshot and image differ: "
                    f"{str(outs[0])[:100]} vs {str(next(o for o in outs[1:] if o != outs[0]))[:100]}", wit)
+        try:
+            r = shared.step(snap, dict(before_img))
+            o_sh = (r.registers.to_dict(), tuple((w.address, w.value) for w in r.memory_writes), r.instruction_length)
+        except Exception as exc:  # noqa: BLE001
+            o_sh = ("raised", type(exc).__name__, str(exc)[:80])
+        if o_sh != outs[0]:
+            vb.add(f"C07/python/stepper-depends-on-earlier-steps/{c06._mnemonic(d + bytes(4))}", f"{d.hex()}: a CPUStepper that already stepped "
+                   f"{len(done)} other snapshot/image pairs gives {str(o_sh)[:100]}, a fresh stepper {str(outs[0])[:100]}", dict(wit, history=list(done)))
+        done.append(d.hex())
     return {"n": n, "vb": vb}
 
 
@@ -398,6 +409,13 @@ def run(ctx) -> None:
     for r in resS:
         ctx.merge_bucket(r["vb"])
     ctx.coverage["part_S_stepper_purity_cases"] = sum(r["n"] for r in resS)
+    # part K: machine-level bookkeeping (how earlier interrupt handlers were left) must not show after a common architectural state
+    from . import c07_book
+    bc = list(c07_book.cases(ctx.thorough))
+    resK = pmap(c07_book.shard, [(impl, c) for impl in ("rust", "python") for c in chunks(bc, nproc() // 2)])
+    for r in resK:
+        ctx.merge_bucket(r["vb"])
+    ctx.coverage["part_K_bookkeeping_runs"] = sum(r["n"] for r in resK)
     # part H: process-wide history (caches keyed without the address, module-level state)
     pairs_h = [(c, a) for c in H_CODES for a in H_ADDRS]
     orders = [pairs_h, list(reversed(pairs_h)), sorted(pairs_h, key=lambda x: (x[1], x[0])), sorted(pairs_h, key=lambda x: (-x[1], x[0]))]
@@ -486,8 +504,11 @@ def replay(ctx, w) -> Optional[str]:
     if w.get("cpu"):
         from . import c18_cpu
         return c18_cpu.replay(w)
+    if w.get("book"):
+        from . import c07_book
+        return c07_book.replay(w)
     if part == "S":
-        r = _part_s(([bytes.fromhex(w["bytes"])], st))
+        r = _part_s(([bytes.fromhex(x) for x in w.get("history", [])] + [bytes.fromhex(w["bytes"])], st))
         for sig, (cnt, wl) in r["vb"].d.items():
             return wl[0][0]
         return None
